@@ -97,7 +97,7 @@ func c14NotifyOrder() map[string]any {
 	r := newPeerRegistry()
 	d := &c14SlowDisc{hit: make(chan struct{}), gate: make(chan struct{}), done: make(chan struct{})}
 	// the registry's disconnector is the Service itself, which forwards to its notifier (the topology)
-	r.setDisconnector(&Service{notifier: d, peers: r})
+	r.setDisconnector(&Service{baseCtx: context.Background(), notifier: d, peers: r})
 	pid := core.PeerID("peer-1")
 	p := &p2p.Peer{EthAddress: c14Addr(1), Type: p2p.PeerTypeProvider}
 	c1, c2 := &c14Conn{pid: pid, id: 1}, &c14Conn{pid: pid, id: 2}
@@ -225,6 +225,96 @@ func c14HeaderWindow() map[string]any {
 	mu.Lock()
 	defer mu.Unlock()
 	return map[string]any{"handler_ran_for_unregistered_peer": res["handler_ran_for_unregistered_peer"], "panic": res["panic"]}
+}
+
+type c14CountDisc struct{ n atomic.Int64 }
+
+func (d *c14CountDisc) Connected(p2p.Peer)    {}
+func (d *c14CountDisc) Disconnected(p2p.Peer) { d.n.Add(1) }
+
+// c14NotifyAtShutdown: the node is shutting down (its base context is cancelled) and its peers'
+// connections close one after the other: each removal still emits exactly one notification.
+func c14NotifyAtShutdown() map[string]any {
+	res := map[string]any{"notifications_for_two_removed_peers": 0, "panic": false}
+	defer func() {
+		if r := recover(); r != nil {
+			res["panic"] = true
+		}
+	}()
+	r := newPeerRegistry()
+	d := &c14CountDisc{}
+	ctx, cancel := context.WithCancel(context.Background())
+	r.setDisconnector(&Service{baseCtx: ctx, notifier: d, peers: r})
+	c1, c2 := &c14Conn{pid: core.PeerID("peer-1"), id: 1}, &c14Conn{pid: core.PeerID("peer-2"), id: 2}
+	r.addPeer(c1, &p2p.Peer{EthAddress: c14Addr(1), Type: p2p.PeerTypeProvider})
+	r.addPeer(c2, &p2p.Peer{EthAddress: c14Addr(2), Type: p2p.PeerTypeBidder})
+	cancel()
+	r.Disconnected(nil, c1)
+	r.Disconnected(nil, c2)
+	time.Sleep(5 * time.Millisecond)
+	res["notifications_for_two_removed_peers"] = int(d.n.Load())
+	return res
+}
+
+// c14StreamDuringHandshake: the peer's first stream arrives while its inbound handshake is still
+// in flight; the handshake completes, the handler runs; then the peer's last connection closes.
+// The running handler's context must be cancelled like any other.
+func c14StreamDuringHandshake() map[string]any {
+	res := map[string]any{"handler_ran": false, "handler_context_cancelled_at_disconnect": false, "panic": false}
+	var mu sync.Mutex
+	set := func(k string, v bool) { mu.Lock(); res[k] = v; mu.Unlock() }
+	guard := func() {
+		if r := recover(); r != nil {
+			set("panic", true)
+		}
+	}
+	defer guard()
+	fh := &c14Host{}
+	svc := &Service{baseCtx: context.Background(), host: fh, peers: newPeerRegistry(), logger: util.NewTestLogger(io.Discard),
+		metrics: newMetrics(prometheus.NewRegistry(), "verif"), blockMap: make(map[core.PeerID]blockInfo)}
+	svc.peers.setDisconnector(svc)
+	pid := core.PeerID("peer-1")
+	conn := &c14Conn{pid: pid, id: 1}
+	started, cancelled := make(chan struct{}), make(chan struct{})
+	svc.AddStreamHandlers(p2p.StreamDesc{Name: "verif", Version: "1.0.0", Handler: func(ctx context.Context, _ p2p.Peer, _ p2p.Stream) error {
+		close(started)
+		select {
+		case <-ctx.Done():
+			close(cancelled)
+		case <-time.After(1500 * time.Millisecond):
+		}
+		return nil
+	}})
+	var hdr c14Buf
+	_ = newMetadataStream(&hdr).WriteHeader(context.Background(), p2p.Header{})
+	gate := make(chan struct{})
+	close(gate)
+	st := &c14SlowStream{conn: conn, gate: gate, data: bytes.NewReader(hdr.Bytes())}
+	finish := svc.beginInboundHandshake(pid) // the inbound handshake handler is running
+	done := make(chan struct{})
+	go func() { defer close(done); defer guard(); fh.handler(st) }()
+	time.Sleep(10 * time.Millisecond)
+	svc.peers.addPeer(conn, &p2p.Peer{EthAddress: c14Addr(1), Type: p2p.PeerTypeBidder})
+	finish()
+	select {
+	case <-started:
+		set("handler_ran", true)
+	case <-time.After(2 * time.Second):
+		return res
+	}
+	svc.peers.Disconnected(nil, conn)
+	select {
+	case <-cancelled:
+		set("handler_context_cancelled_at_disconnect", true)
+	case <-time.After(500 * time.Millisecond):
+	}
+	select {
+	case <-done:
+	case <-time.After(2 * time.Second):
+	}
+	mu.Lock()
+	defer mu.Unlock()
+	return map[string]any{"handler_ran": res["handler_ran"], "handler_context_cancelled_at_disconnect": res["handler_context_cancelled_at_disconnect"], "panic": res["panic"]}
 }
 
 func c14Addr(a uint64) common.Address { return common.BigToAddress(new(big.Int).SetUint64(a)) }
@@ -374,6 +464,8 @@ func TestVerifC14(t *testing.T) {
 	for k := 0; k < 3; k++ {
 		out.emit(c14In{Tag: "notify-order", Ops: []c14Op{}}, c14NotifyOrder())
 		out.emit(c14In{Tag: "header-window", Ops: []c14Op{}}, c14HeaderWindow())
+		out.emit(c14In{Tag: "stream-during-handshake", Ops: []c14Op{}}, c14StreamDuringHandshake())
+		out.emit(c14In{Tag: "notify-at-shutdown", Ops: []c14Op{}}, c14NotifyAtShutdown())
 	}
 	// handler life cycles the short enumeration cannot reach: a peer that was idle for a moment (its
 	// only handler returned) gets new handlers, then its last connection closes
